@@ -75,3 +75,48 @@ func CycleCorpus(full bool) []*sdl.Program {
 	}
 	return out
 }
+
+// SubstRingCorpus returns small rings of pointer-wired components (one candidate per point,
+// so nothing but the name-sorted refresh decides where the ring is entered) in which one
+// member is substituted around initialization, for every ring length 2..3, every substituted
+// member, three wrap timings, and with the substituted member and its successor carrying
+// names that differ in capitalisation only (either way round).
+func SubstRingCorpus() []*sdl.Program {
+	var out []*sdl.Program
+	for L := 2; L <= 3; L++ {
+		for k := 0; k < L; k++ {
+			for _, plan := range []string{"after", "before", "early+after"} {
+				for flip := 0; flip < 2; flip++ {
+					p := &sdl.Program{ID: "PX", Family: FamSubst, NIfaces: 1, Note: fmt.Sprintf("subst ring L=%d member=%d plan=%s flip=%d", L, k, plan, flip)}
+					for i := 0; i < L; i++ {
+						j := (i + 1) % L
+						t := &sdl.Type{Name: fmt.Sprintf("PXT%d", i), Init: true, Ifaces: []int{0}}
+						t.Points = []*sdl.Point{{Field: "F0", Kind: sdl.KPtr, Target: fmt.Sprintf("PXT%d", j), Sel: sdl.SelType}}
+						alias := fmt.Sprintf("bq%d", i)
+						switch {
+						case i == k:
+							alias = []string{"aq", "Aq"}[flip]
+						case i == (k+1)%L:
+							alias = []string{"Aq", "aq"}[flip]
+						}
+						p.Types = append(p.Types, t)
+						p.Instances = append(p.Instances, &sdl.Instance{ID: fmt.Sprintf("c%d", i), Type: t.Name, Alias: alias})
+					}
+					pr := &sdl.Proc{ID: "pp0", Class: "smart"}
+					tgt := fmt.Sprintf("c%d", k)
+					switch plan {
+					case "after":
+						pr.Rules = []*sdl.Rule{{Target: tgt, At: sdl.CbAfter, Action: "substitute", Sub: "s0"}}
+					case "before":
+						pr.Rules = []*sdl.Rule{{Target: tgt, At: sdl.CbBefore, Action: "substitute", Sub: "s0"}}
+					case "early+after":
+						pr.Rules = []*sdl.Rule{{Target: tgt, At: sdl.CbEarly, Action: "substitute", Sub: "s0"}, {Target: tgt, At: sdl.CbAfter, Action: "substitute", Sub: "s0b"}}
+					}
+					p.Procs = []*sdl.Proc{pr}
+					out = append(out, p)
+				}
+			}
+		}
+	}
+	return out
+}
